@@ -19,10 +19,10 @@ for p in allp:
             "replay_cmd_template": "python3 run.py replay {path}",
             "engine": "lean4-proof+cosim",
             "level_claimed": {"category": "proof",
-                              "text": sp.get("level_text", "Lean 4 theorems (module %s) about the executable model, for all inputs / states / histories they quantify over; the model is tied to /repo on every run by differential co-simulation of the real entry points and pure functions, and executable monitors of the same predicates run on the implementation's own answers" % sp["module"]),
+                              "text": sp.get("level_text", "Lean 4 theorems (module %s) about the executable model, for all inputs / states / histories they quantify over; the model is tied to /repo on every run (a) by a translator that regenerates the contracts' message interface, stored layouts and storage keys into Lean tables over which interface theorems are re-checked by kernel evaluation, and (b) by differential co-simulation of the real entry points and pure functions (the chain model additionally against cw-multi-test running the real contract); executable monitors of the same predicates run on the implementation's own answers and supply the failing input when a proof obligation or the correspondence breaks" % sp["module"]),
                               "design_ref": "DESIGN.md §6 " + pid},
             "level_note": sp.get("level_note", "trusted: Lean kernel; correspondence harness/driver/orchestrator; modelled libraries and chain model (DESIGN.md §8); generator coverage bounds what the tie has seen (printed in the evidence)"),
-            "technique": sp.get("technique", "Lean 4 theorem proving + model/implementation correspondence by co-simulation")})
+            "technique": sp.get("technique", "Lean 4 theorem proving (machine-checked proofs about a hand-written executable model) + model/implementation correspondence: interface tables regenerated from the source by a translator and re-checked by kernel evaluation, differential co-simulation of the real entry points, reference-chain mirror")})
     else:
         na.append({"property_id": pid, "reason": props.NOT_APPLICABLE.get(pid, NOT_YET) if hasattr(props, "NOT_APPLICABLE") else NOT_YET})
 m = {"version": 1, "setup_cmd": "python3 run.py setup",
